@@ -268,6 +268,9 @@ func code39DecodeExtended(encoded []byte) (string, error) {
 	for i := 0; i < length; i++ {
 		c := encoded[i]
 		if c == '+' || c == '$' || c == '%' || c == '/' {
+			if i+1 >= length {
+				return string(decoded), gozxing.NewFormatException("encoded ends with escape character '%c'", c)
+			}
 			next := encoded[i+1]
 			decodedChar := byte(0)
 			switch c {
